@@ -122,7 +122,7 @@ impl TypeEntry {
             }
             TypeEntryDetails::Tuple(types) => {
                 let tup = value_for_tuple(type_space, value, types, scope)?;
-                quote! { ( #( #tup ),* )}
+                tuple_expr(&tup)
             }
             TypeEntryDetails::Array(type_id, _) => {
                 let arr = value.as_array()?;
@@ -225,7 +225,7 @@ fn value_for_external_enum(
             }
             VariantDetails::Tuple(types) => {
                 let tup = value_for_tuple(type_space, var_value, types, scope)?;
-                Some(quote! { #scope #type_ident::#var_ident ( #( #tup ),* ) })
+                Some(variant_tuple_expr(scope, &type_ident, &var_ident, &tup))
             }
             VariantDetails::Struct(props) => {
                 let props = value_for_struct_props(props, var_value, type_space, scope)?;
@@ -300,7 +300,7 @@ fn value_for_adjacent_enum(
         (VariantDetails::Simple, None) => Some(quote! { #scope #type_ident::#var_ident}),
         (VariantDetails::Tuple(types), Some(content_value)) => {
             let tup = value_for_tuple(type_space, content_value, types, scope)?;
-            Some(quote! { #scope #type_ident::#var_ident ( #( #tup ),* ) })
+            Some(variant_tuple_expr(scope, &type_ident, &var_ident, &tup))
         }
         (VariantDetails::Struct(props), Some(content_value)) => {
             let props = value_for_struct_props(props, content_value, type_space, scope)?;
@@ -331,7 +331,7 @@ fn value_for_untagged_enum(
             }
             VariantDetails::Tuple(types) => {
                 let tup = value_for_tuple(type_space, value, types, scope)?;
-                Some(quote! { #scope #type_ident::#var_ident ( #( #tup ),* ) })
+                Some(variant_tuple_expr(scope, &type_ident, &var_ident, &tup))
             }
             VariantDetails::Struct(props) => {
                 let props = value_for_struct_props(props, value, type_space, scope)?;
@@ -339,6 +339,32 @@ fn value_for_untagged_enum(
             }
         }
     })
+}
+
+/// A tuple expression; a tuple of one element needs a trailing comma lest it
+/// be read as a parenthesized expression.
+fn tuple_expr(tup: &[TokenStream]) -> TokenStream {
+    if tup.len() == 1 {
+        quote! { ( #( #tup, )* ) }
+    } else {
+        quote! { ( #( #tup ),* ) }
+    }
+}
+
+/// A tuple variant; the variant for a tuple of one element is emitted with a
+/// single field that is itself a tuple (see `output_variant`).
+fn variant_tuple_expr(
+    scope: &TokenStream,
+    type_ident: &proc_macro2::Ident,
+    var_ident: &proc_macro2::Ident,
+    tup: &[TokenStream],
+) -> TokenStream {
+    if tup.len() == 1 {
+        let inner = tuple_expr(tup);
+        quote! { #scope #type_ident::#var_ident ( #inner ) }
+    } else {
+        quote! { #scope #type_ident::#var_ident ( #( #tup ),* ) }
+    }
 }
 
 fn value_for_item(
